@@ -1,5 +1,5 @@
 CONSTANT MaxSize = 7
 INIT Init
 NEXT Next
-INVARIANTS RoundTrip Bounded
+INVARIANTS RoundTrip Bounded Refines
 CHECK_DEADLOCK FALSE
